@@ -12,7 +12,7 @@ open Spec
 
 /-- the arms of `DataNumber::parse` the specification relies on (decidable; discharged for
     `Generated.dnArms` by `decide`) -/
-def DnArmsOk (arms : DnArms) : Bool :=
+def DnArmsOk_a6 (arms : DnArms) : Bool :=
   arms.lookup (1, false) == some .u8 && arms.lookup (2, false) == some .u16 &&
   arms.lookup (3, false) == some .u24 && arms.lookup (4, false) == some .u32 &&
   arms.lookup (8, false) == some .u64 && arms.lookup (16, false) == some .u128 &&
@@ -23,11 +23,11 @@ def DnArmsOk (arms : DnArms) : Bool :=
 theorem DataNumber_parse_append (arms : DnArms) (sg : Bool) (arm : DnArm) (bs r : Bytes)
     (h : arms.lookup (bs.length, sg) = some arm) :
     DataNumber.parse arms bs.length sg (bs ++ r) = some (DataNumber.make arm sg bs, r) := by
-  simp only [DataNumber.parse, h, takeN_append]
+  simp only [DataNumber.parse, h, takeN_append_a6]
 
-theorem beInt_bounds (bs : Bytes) :
+theorem beInt_bounds_a6 (bs : Bytes) :
     -((256 ^ bs.length : Nat) : Int) ≤ 2 * beInt bs ∧ 2 * beInt bs < ((256 ^ bs.length : Nat) : Int) := by
-  have h := beNat_lt bs
+  have h := beNat_lt_a6 bs
   simp only [beInt]
   split <;> omega
 
@@ -51,13 +51,13 @@ theorem signedWide_false {bs : Bytes} (h : Findings.signedWide bs = false) (hl :
     omega
 
 /-- `parseValue` on the exact bytes of a field returns what the specification says the bytes mean -/
-theorem parseValue_interp (c : ValueCfg) (names : List (Nat × String)) (ty : FType) (bs r : Bytes) (v : FieldValue)
-    (harms : DnArmsOk c.dnArms = true) (hty : ty ≠ .proto)
+theorem parseValue_interp_a6 (c : ValueCfg) (names : List (Nat × String)) (ty : FType) (bs r : Bytes) (v : FieldValue)
+    (harms : DnArmsOk_a6 c.dnArms = true) (hty : ty ≠ .proto)
     (hu : ty = .unknown → c.unknownFields = true)
     (hs : ty = .signed → Findings.signedWide bs = false)
     (h : interpSpec names ty bs = some v) :
     parseValue c ty bs.length (bs ++ r) = some (v, r) := by
-  simp only [DnArmsOk, Bool.and_eq_true, beq_iff_eq] at harms
+  simp only [DnArmsOk_a6, Bool.and_eq_true, beq_iff_eq] at harms
   obtain ⟨⟨⟨⟨⟨⟨⟨⟨⟨⟨⟨a1, a2⟩, a3⟩, a4⟩, a8⟩, a16⟩, s1⟩, s2⟩, s3⟩, s4⟩, s8⟩, s16⟩ := harms
   have hdur : bs.length ∈ [1, 2, 3, 4, 8] → ∃ arm, c.dnArms.lookup (bs.length, false) = some arm ∧
       (DataNumber.make arm false bs).toUsize = beNat bs := by
@@ -83,7 +83,7 @@ theorem parseValue_interp (c : ValueCfg) (names : List (Nat × String)) (ty : FT
     · rw [← hl] at a16; rw [DataNumber_parse_append _ _ _ _ _ a16]; simpa [DataNumber.make] using h
     · simp at h
   | signed =>
-    have hb := beInt_bounds bs
+    have hb := beInt_bounds_a6 bs
     simp only [interpSpec, signedOf] at h
     simp only [parseValue]
     split at h <;> rename_i hl
@@ -107,19 +107,19 @@ theorem parseValue_interp (c : ValueCfg) (names : List (Nat × String)) (ty : FT
     · simp at h
   | str =>
     simp only [interpSpec, Option.some.injEq] at h
-    simp only [parseValue, takeN_append, h]
+    simp only [parseValue, takeN_append_a6, h]
   | vec =>
     simp only [interpSpec, Option.some.injEq] at h
-    simp only [parseValue, takeN_append, h]
+    simp only [parseValue, takeN_append_a6, h]
   | unknown =>
     simp only [interpSpec, Option.some.injEq] at h
-    simp only [parseValue, hu rfl, ↓reduceIte, takeN_append, h]
+    simp only [parseValue, hu rfl, ↓reduceIte, takeN_append_a6, h]
   | ip4 =>
     simp only [interpSpec] at h
     split at h
     · rename_i hl
       simp only [Option.some.injEq] at h
-      have := beU_append bs r
+      have := beU_append_a6 bs r
       rw [hl] at this
       simp only [parseValue, this, h]
     · simp at h
@@ -128,7 +128,7 @@ theorem parseValue_interp (c : ValueCfg) (names : List (Nat × String)) (ty : FT
     split at h
     · rename_i hl
       simp only [Option.some.injEq] at h
-      have := beU_append bs r
+      have := beU_append_a6 bs r
       rw [hl] at this
       simp only [parseValue, this, h]
     · simp at h
@@ -137,7 +137,7 @@ theorem parseValue_interp (c : ValueCfg) (names : List (Nat × String)) (ty : FT
     split at h
     · rename_i hl
       simp only [Option.some.injEq] at h
-      have := beU_append bs r
+      have := beU_append_a6 bs r
       rw [hl] at this
       simp only [parseValue, this, h]
     · simp at h
@@ -146,7 +146,7 @@ theorem parseValue_interp (c : ValueCfg) (names : List (Nat × String)) (ty : FT
     split at h
     · rename_i hl
       simp only [Option.some.injEq] at h
-      have := takeN_append bs r
+      have := takeN_append_a6 bs r
       rw [hl] at this
       simp only [parseValue, this, h]
     · simp at h
@@ -265,7 +265,7 @@ def NoProto (c : Config) : Prop := ∀ n, c.t.ipTy (c.t.ipField n) ≠ FType.pro
 /-- (d) one field value: framing + interpretation -/
 theorem ipParseValue_enc (c : Config) (names : List (Nat × String)) (f : IpTField) (v : FieldBytes)
     (val : FieldValue) (r : Bytes)
-    (harms : DnArmsOk c.t.dnArms = true) (hnp : NoProto c) (hok : ipFieldValOk c f v = true)
+    (harms : DnArmsOk_a6 c.t.dnArms = true) (hnp : NoProto c) (hok : ipFieldValOk c f v = true)
     (h : expIpField c names f v = some val) :
     ipParseValue c f (encFieldBytes v ++ r) = some (val, r) := by
   obtain ⟨h1, h2, h3, h4, h5⟩ := expIpField_inv c names f v val h
@@ -273,12 +273,12 @@ theorem ipParseValue_enc (c : Config) (names : List (Nat × String)) (f : IpTFie
   cases he : f.ent with
   | some pen =>
     simp only [ipFieldTy, he] at h5
-    simp only [takeN_append, h5]
+    simp only [takeN_append_a6, h5]
   | none =>
     simp only [ipFieldTy, he] at h5
     simp only [ipFieldValOk, he, Bool.and_eq_true, Bool.or_eq_true, bne_iff_ne, ne_eq, Bool.not_eq_true'] at hok
     simp only
-    apply parseValue_interp c.vc names _ _ _ _ harms (hnp f.typ) _ _ h5
+    apply parseValue_interp_a6 c.vc names _ _ _ _ harms (hnp f.typ) _ _ h5
     · intro hu
       rcases hok.2 with h | h
       · exact absurd hu h
